@@ -613,6 +613,9 @@ def templates_first(fkey, b, n, dt, rng, kinds):
         res += [(k + "/alpha", [K(k)], {"alpha": 2}) for k in ("tensor", "op-unrelated", "op-same", "op-super") if k in kinds]
         res += [("tensor/alpha-float", [K("tensor")], {"alpha": -1.5}), ("kw-other", [], {"other": K("tensor")}),
                 ("kw-other/alpha", [], {"other": K("tensor"), "alpha": 2}), ("out", [K("tensor")], {"out": K("outbuf")})]
+        # falsy alpha values are values (the result is the first operand), not "no alpha"
+        res += [(f"{k}/alpha0:{nm}", [K(k)], {"alpha": v}) for k in ("tensor", "op-unrelated", "op-same", "op-super") if k in kinds
+                for nm, v in (FALSY_ALPHA if k == "tensor" else FALSY_ALPHA_OPS)]
         return res
     if fkey == "torch.mul":
         return [(k, [K(k)], {}) for k in kinds if k not in MATMUL_ONLY] + [("kw-other", [], {"other": K("tensor")}), ("kw-other-0d", [], {"other": K("0d")}),
@@ -648,17 +651,24 @@ def templates_second(fkey, b, n, dt, rng, kinds):
         res = [(k, K(k), {}) for k in ks]
         if fkey in ("torch.Tensor.add", "torch.Tensor.sub"):
             res += [("tensor/alpha", K("tensor"), {"alpha": 2})]
+            res += [(f"tensor/alpha0:{nm}", K("tensor"), {"alpha": v}) for nm, v in FALSY_ALPHA]
         return res
     res = [(k, K(k), {}) for k in kinds if k not in MATMUL_ONLY]
     res += [("tsub", ("tsub",), {}), ("foreign", ("foreign",), {})]
     if fkey in ("torch.add", "torch.sub"):
         res += [(k + "/alpha", K(k), {"alpha": 2}) for k in ("tensor", "op-super", "0d") if k in kinds]
         res += [("tensor/alpha-float", K("tensor"), {"alpha": -1.5})]
+        res += [(f"{k}/alpha0:{nm}", K(k), {"alpha": v}) for k in ("tensor", "op-super") if k in kinds
+                for nm, v in (FALSY_ALPHA if k == "tensor" else FALSY_ALPHA_OPS)]
     res += [("kw-op", K("tensor"), {"other": SELF}), ("kw-input+op", None, {"input": K("tensor"), "other": SELF})]
     return res
 
 
 MATMUL_ONLY = {"op-tril", "op-triu", "op-diag"}
+# alpha values that are falsy in Python: `torch.add/sub(x, y, alpha=0)` is `x` (dense torch rejects a bool alpha for float results: counted)
+# (a 0-dim float32 tensor: as a python scalar it never promotes the result dtype, for float32 and float64 operators alike)
+FALSY_ALPHA = [("int", 0), ("float", 0.0), ("tensor", torch.tensor(0.0)), ("bool", False)]
+FALSY_ALPHA_OPS = FALSY_ALPHA[:1]      # operator-valued second operands: one falsy value (all four for tensor operands)
 SELF = ("self",)   # the operator under test, passed by keyword
 
 PYOPS = [("T_matmul_op", "torch.Tensor.matmul", lambda T, op: T @ op), ("T_add_op", "torch.Tensor.add", lambda T, op: T + op),
@@ -753,6 +763,8 @@ class Group:
         return spec
 
     def rej_key(self, fkey, posname, label):
+        if "/alpha0:" in label:
+            label = label.split("/alpha0:")[0] + "/alpha"
         return f"{fkey}/{posname}/{self.cname}/{label}/{'b+' if self.b else 'b0'}{'' if self.dt == torch.float64 else '|f32'}"
 
     def payload(self, **kw):
@@ -915,18 +927,19 @@ class Group:
                           self.payload(fkey=fkey, pos=pos, label=label))
         # two-step dispatch: registered one-operand functions applied to an operator-valued result of a two-operand call
         if (ok and r_impl[0] == "ok" and r_dense[0] == "ok" and is_op(r_impl[1]) and fkey in BINARY and fkey != "torch.isclose"
+                and "/alpha0:" not in label   # the result is the first operand: nothing new for a second step
                 and isinstance(r_dense[1], torch.Tensor) and r_dense[1].dim() >= 2 and r_dense[1].shape[-1] == r_dense[1].shape[-2]):
             self.two_step(cell, fkey, tokens, r_impl[1], r_dense[1].as_subclass(torch.Tensor), self.payload(fkey=fkey, pos=pos, label=label))
         # value line for the Lean denotational layer (unbatched, matrix operands, exact data)
         if (not self.batch and r_impl[0] == "ok" and len(args1) == 2 and fkey in BINARY and fkey != "torch.isclose" and fkey != "torch.div"
                 and all(is_op(x) or (isinstance(x, torch.Tensor) and x.dim() == 2 and x.shape[0] == x.shape[1] == self.n) for x in args1)
-                and set(kwargs) <= {"alpha"} and self.opdt == torch.float64 and float(kwargs.get("alpha", 1)).is_integer()):
+                and set(kwargs) <= {"alpha"} and self.opdt == torch.float64 and not isinstance(kwargs.get("alpha"), bool) and float(kwargs.get("alpha", 1)).is_integer()):
             X, Y = (densify(a) for a in args3)
             got = r_impl[2][1]
             if got.dim() == 2 and torch.isfinite(got).all() and (got - got.round()).abs().max() < 1e-6 and \
                     all((t - t.round()).abs().max() == 0 for t in (X, Y)):
                 got = got.round()
-                al = str(kwargs["alpha"]) if "alpha" in kwargs else "n"
+                al = str(int(float(kwargs["alpha"]))) if "alpha" in kwargs else "n"
                 vline = f"val {fkey} {arg_token(args1[0])} {arg_token(args1[1])} {al} {fmt(X)} {fmt(Y)}"
                 self.lines.append((vline, fmt(got), cell + "/value-model", self.payload(fkey=fkey, pos=pos, label=label), "val"))
         return ok
